@@ -253,6 +253,7 @@ def _is_target_index(t):
 
 def run(ctx, chk):
     C03.r1(ctx, chk, "C13.1")
+    C03.r23(ctx, chk, "C13.pre:C03.2", "C13.pre:C03.3")     # a conditioning that merges or drops transitions depends on their order
     r2_consumers(ctx, chk)
     r34_opacity(ctx, chk)
     r5_pruning_order(ctx, chk)
